@@ -2,6 +2,7 @@
 pub mod anyhow {
     use vstd::prelude::*;
     verus! {
+    #[derive(Debug)]
     pub struct Error { pub x: u8 }
     pub type Result<T> = std::result::Result<T, Error>;
     // bail!("..") expands to `return Err(anyhow!(..))`  (rule T-ANYHOW)
@@ -39,6 +40,7 @@ pub mod openssl {
         use super::error::ErrorStack;
         verus! {
         #[derive(PartialEq, Eq)]
+        #[derive(Debug)]
         pub struct AlpnError { pub code: u8 }
         impl AlpnError {
             pub const ALERT_FATAL: AlpnError = AlpnError { code: 2 };
@@ -47,6 +49,7 @@ pub mod openssl {
         pub struct SslMethod { pub x: u8 }
         impl SslMethod { #[verifier::external_body] pub fn tls() -> SslMethod { unimplemented!() } }
         pub struct SslRef { pub x: u8 }
+        #[derive(Debug)]
         pub struct HandshakeError { pub x: u8 }
         pub struct SslStream { pub x: u8 }
         // the ALPN protocol list in wire format: length-prefixed names
@@ -102,6 +105,7 @@ pub mod openssl {
 pub mod vnet {
     use vstd::prelude::*;
     verus! {
+    #[derive(Debug)]
     pub struct IoError { pub x: u8 }
     pub struct Stream { pub x: u8 }
     pub struct TcpListener { pub x: u8 }
